@@ -153,6 +153,9 @@ func (g *g2l) strConst(s string) string {
 	if !g.strOn() {
 		return leanStr(s)
 	}
+	if g.bytesOn() { // go2lean_buffer.go
+		return g.bytesConst(s)
+	}
 	parts := make([]string, len(s))
 	for i := 0; i < len(s); i++ {
 		parts[i] = g2lCharLit(s[i])
@@ -274,7 +277,7 @@ func (f *g2lFn) callExt(c *ast.CallExpr) (string, bool) {
 	if !strings.Contains(tmpl, ":lit}") && !(recvPtr && f.g.strOn()) {
 		return "", false // the plain path (and go2lean_ptr.go for receivers of other configurations) takes it
 	}
-	if c.Ellipsis.IsValid() || sig.Variadic() {
+	if c.Ellipsis.IsValid() || (sig.Variadic() && !f.g.env().Variadic) { // go2lean_env.go: arguments the template does not mention are dropped
 		f.fail("variadic primitive `%s`", f.src(c))
 	}
 	var argEs []ast.Expr
@@ -309,6 +312,9 @@ func (f *g2lFn) callExt(c *ast.CallExpr) (string, bool) {
 }
 
 func (f *g2lFn) strConversion(to types.Type, arg ast.Expr, c *ast.CallExpr) (string, bool) {
+	if s, ok := f.bytesConversionBuf(to, arg); ok { // go2lean_buffer.go: []byte(s), string(b)
+		return s, true
+	}
 	from := f.typeOf(arg)
 	tk, fk := g2lKindOf(to), g2lKindOf(from)
 	if out, ok := f.bytesConversion(to, arg); ok { // go2lean_codec.go
@@ -461,6 +467,9 @@ func (f *g2lFn) indexExt(x *ast.IndexExpr, t types.Type) (string, bool) {
 	if !f.g.strOn() {
 		return "", false
 	}
+	if g2lKindOf(t) == kString && f.g.bytesOn() { // go2lean_buffer.go
+		return "GoblVerif.GoBytes.byteAt " + g2lPar(f.expr(x.X)) + " " + f.natIndex(x.Index), true
+	}
 	if g2lKindOf(t) == kString {
 		return "GoblVerif.GoStr.byteAt " + g2lPar(f.expr(x.X)) + " " + f.natIndex(x.Index), true
 	}
@@ -539,7 +548,7 @@ func (f *g2lFn) sliceExpr(x *ast.SliceExpr) string {
 		// operand afterwards seen through it; element assignment is only
 		// allowed on un-aliased make-slices (localSliceOK), which excludes both
 		if id, ok := ast.Unparen(x.X).(*ast.Ident); ok {
-			if o, _ := f.g.info.Uses[id].(*types.Var); o != nil && f.mutated[o] && !f.localSliceOK(x.X) {
+			if o, _ := f.g.info.Uses[id].(*types.Var); o != nil && f.mutated[o] && !f.localSliceOK(x.X) && !f.sliceOfAssignedOK(x.X) { // go2lean_buffer.go: owned slices
 				f.fail("slice of `%s`, which is assigned in this function (aliasing is not modelled)", id.Name)
 			}
 		}
@@ -553,6 +562,9 @@ func (f *g2lFn) sliceExpr(x *ast.SliceExpr) string {
 	case x.High == nil:
 		return "List.drop " + f.natIndex(x.Low) + " " + s
 	}
+	if f.g.bytesOn() { // go2lean_buffer.go
+		return "GoblVerif.GoBytes.slice " + s + " " + f.natIndex(x.Low) + " " + f.natIndex(x.High)
+	}
 	return "GoblVerif.GoStr.slice " + s + " " + f.natIndex(x.Low) + " " + f.natIndex(x.High)
 }
 
@@ -564,8 +576,14 @@ func (f *g2lFn) tupleRhs(x *ast.AssignStmt) string {
 	case *ast.CallExpr:
 		return f.exprNB(r)
 	case *ast.TypeAssertExpr:
+		if s, ok := f.typeAssertEnv(x, r); ok { // go2lean_env.go
+			return s
+		}
 		if !f.g.strOn() || len(x.Lhs) != 2 || r.Type == nil {
 			break
+		}
+		if s, ok := f.assertPrim(r); ok { // go2lean_buffer.go: an assertion named by a primitive
+			return s
 		}
 		it, ok := f.typeOf(r.X).Underlying().(*types.Interface)
 		if !ok || !it.Empty() {
